@@ -1559,8 +1559,11 @@ static WBXMLError wbxml_fill_header(WBXMLEncoder *encoder, WBXMLBuffer *header)
     strstbl_len = encoder->strstbl_len;
 #endif /* WBXML_ENCODER_USE_STRTBL */
 
-    /* WBXML Public ID */
-    public_id = encoder->lang->publicID->wbxmlPublicID;
+    /* WBXML Public ID (an anonymous document carries the 'unknown' Public ID) */
+    if (encoder->produce_anonymous)
+        public_id = WBXML_PUBLIC_ID_UNKNOWN;
+    else
+        public_id = encoder->lang->publicID->wbxmlPublicID;
 
     /* Encode WBXML Version */
     if (!wbxml_buffer_append_char(header, (WB_UTINY) encoder->wbxml_version))
